@@ -36,7 +36,7 @@ func (s *scen) roots() map[string][]chainsim.Action {
 func (s *scen) fullAlphabet() []chainsim.Action {
 	var out []chainsim.Action
 	seen := map[string]bool{}
-	for _, l := range [][]chainsim.Action{s.lifeAlphabet(true), s.closeAlphabet(true), s.readAlphabet(true), s.freeAlphabet(true), s.capAlphabet(true), s.lateFailing()} {
+	for _, l := range [][]chainsim.Action{s.lifeAlphabet(2), s.closeAlphabet(true), s.readAlphabet(true), s.freeAlphabet(true), s.capAlphabet(true), s.lateFailing()} {
 		for _, a := range l {
 			if !seen[a.Name] {
 				seen[a.Name] = true
@@ -48,7 +48,8 @@ func (s *scen) fullAlphabet() []chainsim.Action {
 }
 
 // lifeAlphabet: the life cycle of allocation A with data and challenges (C12, C09).
-func (s *scen) lifeAlphabet(wide bool) []chainsim.Action {
+// level 0 = core (12 actions), 1 = medium (18), 2 = full (25).
+func (s *scen) lifeAlphabet(level int) []chainsim.Action {
 	a := []chainsim.Action{
 		s.commit("A", 0, 200<<20, "", 0),
 		s.commit("A", 0, -(300 << 20), "", 0),
@@ -63,17 +64,25 @@ func (s *scen) lifeAlphabet(wide bool) []chainsim.Action {
 		s.cancel("A", "c0", 0, 0),
 		s.finalize("A", "b1", late, 0),
 	}
-	if wide {
+	if level >= 1 {
 		a = append(a,
 			s.challengeResponse("A", 1, "pass", 0, 0),
 			s.challengeResponse("A", 0, "one", 0, 0),
 			s.tick("b3", 2),
 			s.update("A", "c0", 0, false, 3, -1, 2*ZCN, 0, 0),
-			s.update("A", "c0", 0, false, 3, 1, ZCN, 0, 0),
 			s.updateBlobber("b1", ZCN/4, 0),
-			s.writePoolLock("A", "c0", ZCN, 0),
 			s.shutdown("c2", "b1"),
+		)
+	}
+	if level >= 2 {
+		a = append(a,
+			s.update("A", "c0", 0, false, 3, 1, ZCN, 0, 0),
+			s.writePoolLock("A", "c0", ZCN, 0),
+			s.shutdown("c2", "b3"),
+			s.unstakeOwnID("c2"),
 			s.finalize("A", "c0", late, 0),
+			s.collect("c2", spenum.Blobber, "b1"),
+			s.unstake("c2", spenum.Blobber, "b3", 0),
 		)
 	}
 	return a
@@ -145,15 +154,15 @@ func (s *scen) readAlphabet(wide bool) []chainsim.Action {
 		s.readRedeem("A", 0, "c0", 2, "", 0),
 		s.readRedeem("B", 1, "c0", 2, "", 0),
 		s.readRedeem("A", 1, "c0", 3, "c1", 2),
-		s.readRedeem("A", 1, "c0", 3, "key:c1", 2),
 		s.readRedeem("A", 1, "c1", 2, "", 0),
-		s.readRedeem("A", 3, "c0", 1, "", 2),
 		s.readPoolLock("c0", 1e6, 0),
 		s.readPoolUnlock("c0", 0),
 	}
 	if wide {
 		a = append(a,
 			s.readRedeem("A", 1, "c0", 5000, "", 2),
+			s.readRedeem("A", 1, "c0", 3, "key:c1", 2),
+			s.readRedeem("A", 3, "c0", 1, "", 2),
 			s.readRedeem("B", 1, "c1", 1, "", 0),
 			s.readPoolUnlock("c1", 0),
 			s.cancel("A", "c0", 0, 0),
@@ -292,7 +301,7 @@ func c12(run *ev.Run, variant string) {
 	s := newScen(0.1)
 	r := s.roots()
 	run.Rule = "BFS over all sequences up to the depth bound of write markers (+/-), challenge generation and responses (pass/fail/partial/late), extend, resize, add/replace blobber (alive and killed), settings change, kill, cancel, finalize on allocation A from root states {A fresh, A with data, A with data and an open challenge}; after every transition, for EVERY allocation node: challenge pool balance == sum of ChallengePoolIntegralValue, and no challenge pool without its allocation"
-	s.explore(run, s.lifeAlphabet(run.Thorough()), pick(run, r, "AW", "AWC", "A"), 3, 4, s.cpMonitor)
+	s.explore(run, s.lifeAlphabet(run.Pick(0, 1)), pick(run, r, "AW", "AWC", "A"), 3, 4, s.cpMonitor)
 }
 
 func c13(run *ev.Run, variant string) {
@@ -313,7 +322,7 @@ func c15(run *ev.Run, variant string) {
 	s := newScen(0.1)
 	r := s.roots()
 	run.Rule = "BFS over sequences of read markers with counters 1,2,3 (and 5000) for 2 clients x 2 blobbers x 2 allocations, replayed and reordered, foreign-signed, for a blobber outside the allocation, interleaved with read-pool lock/unlock; reference = last redeemed counter per (blobber, client, allocation): debit == floor(read price * newly read blocks / 16384), replay/older charges nothing, stored counters never decrease, forged markers are rejected"
-	s.explore(run, s.readAlphabet(run.Thorough()), pick(run, r, "AB"), 4, 5, s.readMonitor)
+	s.explore(run, s.readAlphabet(run.Thorough()), pick(run, r, "AB"), 4, 4, s.readMonitor)
 }
 
 func c24(run *ev.Run, variant string) {
@@ -331,14 +340,13 @@ func c09(run *ev.Run, variant string) {
 	run.Rule = "storage contract: L = sum over ALL stake pools (delegate balances + unpaid rewards), write pools, challenge pools and read pools, W = balance of the storage contract address; after every transition dL <= dW (no block reward accrues in these alphabets). Variant " + variant
 	switch variant {
 	case "life", "":
-		acts := append(s.lifeAlphabet(run.Thorough()), s.collect("c2", spenum.Blobber, "b1"), s.unstake("c2", spenum.Blobber, "b3", 0))
-		s.explore(run, acts, pick(run, r, "AW", "AWC"), 3, 4, s.liabMonitor)
+		s.explore(run, s.lifeAlphabet(run.Pick(0, 2)), pick(run, r, "AW", "AWC"), 3, 3, s.liabMonitor)
 	case "close":
-		s.explore(run, s.closeAlphabet(run.Thorough()), pick(run, r, "AWC", "AWK"), 2, 4, s.liabMonitor)
+		s.explore(run, s.closeAlphabet(run.Thorough()), pick(run, r, "AWC", "AWK"), 2, 3, s.liabMonitor)
 	case "cap":
-		s.explore(run, s.capAlphabet(run.Thorough()), pick(run, r, "AW"), 2, 4, s.liabMonitor)
+		s.explore(run, s.capAlphabet(run.Thorough()), pick(run, r, "AW"), 2, 3, s.liabMonitor)
 	case "read":
-		s.explore(run, s.readAlphabet(run.Thorough()), pick(run, r, "AB"), 3, 5, s.liabMonitor)
+		s.explore(run, s.readAlphabet(run.Thorough()), pick(run, r, "AB"), 3, 4, s.liabMonitor)
 	case "free":
 		s.explore(run, s.freeAlphabet(true), pick(run, r, "F"), 3, 4, s.liabMonitor)
 	default:
